@@ -48,6 +48,172 @@ pub fn random_script(rng: &mut Rng, old: &[u32], new: &[u32]) -> Vec<DiffOp> {
     ops
 }
 
+/// "script first": build old/new from a random sequence of segments (equal runs, deletions,
+/// insertions, replacements) so that scripts with many change runs occur; inserted/deleted items
+/// are often chosen equal to the neighbouring equal items, which makes the compaction slide,
+/// merge, swap and grow the op list.
+pub fn scripted_case(rng: &mut Rng, nseg: usize, alpha: u32) -> (Vec<u32>, Vec<u32>, Vec<DiffOp>) {
+    let (mut old, mut new, mut ops) = (vec![], vec![], vec![]);
+    let mut last_eq: Vec<u32> = vec![];
+    let mut last_change: Option<u32> = None; // first item of the last inserted/deleted run
+    for _ in 0..nseg {
+        let pick = |rng: &mut Rng, near: &Vec<u32>| -> u32 {
+            if !near.is_empty() && rng.chance(1, 2) {
+                *rng.pick(near)
+            } else {
+                rng.below(alpha as usize) as u32
+            }
+        };
+        match rng.below(5) {
+            0 | 1 => {
+                let len = rng.range(1, 3);
+                let mut seg: Vec<u32> = (0..len).map(|_| pick(rng, &last_eq)).collect();
+                if let Some(v) = last_change.take() {
+                    // the equal run often starts with the item just inserted/deleted: forces a slide
+                    if rng.chance(2, 3) {
+                        seg[0] = v;
+                    }
+                }
+                ops.push(DiffOp::Equal {
+                    old_index: old.len(),
+                    new_index: new.len(),
+                    len,
+                });
+                old.extend(&seg);
+                new.extend(&seg);
+                last_eq = seg;
+            }
+            2 => {
+                let len = rng.range(1, 2);
+                ops.push(DiffOp::Delete {
+                    old_index: old.len(),
+                    old_len: len,
+                    new_index: new.len(),
+                });
+                for _ in 0..len {
+                    let v = pick(rng, &last_eq);
+                    old.push(v);
+                }
+            }
+            3 => {
+                let len = rng.range(1, 2);
+                ops.push(DiffOp::Insert {
+                    old_index: old.len(),
+                    new_index: new.len(),
+                    new_len: len,
+                });
+                for k in 0..len {
+                    let v = pick(rng, &last_eq);
+                    if k == 0 {
+                        last_change = Some(v);
+                    }
+                    new.push(v);
+                }
+            }
+            _ => {
+                let (dl, il) = (rng.range(1, 2), rng.range(1, 2));
+                ops.push(DiffOp::Delete {
+                    old_index: old.len(),
+                    old_len: dl,
+                    new_index: new.len(),
+                });
+                for _ in 0..dl {
+                    let v = pick(rng, &last_eq);
+                    old.push(v);
+                }
+                ops.push(DiffOp::Insert {
+                    old_index: old.len(),
+                    new_index: new.len(),
+                    new_len: il,
+                });
+                for k in 0..il {
+                    let v = pick(rng, &last_eq);
+                    if k == 0 {
+                        last_change = Some(v);
+                    }
+                    new.push(v);
+                }
+            }
+        }
+    }
+    // the equal segments were declared equal by construction; everything else is a change
+    (old, new, ops)
+}
+
+/// Block templates that make the compaction *grow* the op list (an insertion that slides down
+/// with no Equal op in front of it leaves a new Equal op behind) and then need a slide at the far
+/// end of the list: (Delete) Insert [v ..] Equal [v w ..] blocks in sequence.
+pub fn template_case(rng: &mut Rng, nblocks: usize) -> (Vec<u32>, Vec<u32>, Vec<DiffOp>) {
+    let (mut old, mut new, mut ops): (Vec<u32>, Vec<u32>, Vec<DiffOp>) = (vec![], vec![], vec![]);
+    let mut fresh = 10u32;
+    let mut val = |rng: &mut Rng, fresh: &mut u32| -> u32 {
+        if rng.chance(1, 3) {
+            rng.below(3) as u32
+        } else {
+            *fresh += 1;
+            *fresh
+        }
+    };
+    for _ in 0..nblocks {
+        let kind = rng.below(6);
+        let v = val(rng, &mut fresh);
+        let w = val(rng, &mut fresh);
+        let push_del = |old: &mut Vec<u32>, new: &Vec<u32>, ops: &mut Vec<DiffOp>, items: &[u32]| {
+            ops.push(DiffOp::Delete {
+                old_index: old.len(),
+                old_len: items.len(),
+                new_index: new.len(),
+            });
+            old.extend_from_slice(items);
+        };
+        let push_ins = |old: &Vec<u32>, new: &mut Vec<u32>, ops: &mut Vec<DiffOp>, items: &[u32]| {
+            ops.push(DiffOp::Insert {
+                old_index: old.len(),
+                new_index: new.len(),
+                new_len: items.len(),
+            });
+            new.extend_from_slice(items);
+        };
+        let push_eq = |old: &mut Vec<u32>, new: &mut Vec<u32>, ops: &mut Vec<DiffOp>, items: &[u32]| {
+            ops.push(DiffOp::Equal {
+                old_index: old.len(),
+                new_index: new.len(),
+                len: items.len(),
+            });
+            old.extend_from_slice(items);
+            new.extend_from_slice(items);
+        };
+        match kind {
+            0 => {
+                let x = val(rng, &mut fresh);
+                push_del(&mut old, &new, &mut ops, &[x]);
+                push_ins(&old, &mut new, &mut ops, &[v]);
+                push_eq(&mut old, &mut new, &mut ops, &[v, w]);
+            }
+            1 => {
+                push_ins(&old, &mut new, &mut ops, &[v]);
+                push_eq(&mut old, &mut new, &mut ops, &[v]);
+            }
+            2 => {
+                push_ins(&old, &mut new, &mut ops, &[v]);
+                push_eq(&mut old, &mut new, &mut ops, &[v, w]);
+            }
+            3 => {
+                push_eq(&mut old, &mut new, &mut ops, &[v, w]);
+            }
+            4 => {
+                push_del(&mut old, &new, &mut ops, &[v]);
+                push_eq(&mut old, &mut new, &mut ops, &[v, w]);
+            }
+            _ => {
+                push_ins(&old, &mut new, &mut ops, &[v, w]);
+                push_eq(&mut old, &mut new, &mut ops, &[v, w, v]);
+            }
+        }
+    }
+    (old, new, ops)
+}
+
 pub const ASTACKS: [&str; 3] = ["compact", "replace", "compact_replace"];
 
 fn feed<D: DiffHook<Error = i64>>(d: &mut D, script: &[DiffOp]) -> Result<(), i64> {
@@ -149,9 +315,31 @@ fn script_pairs(a: &Args, rng: &mut Rng) -> Vec<gen::Pair> {
     pairs
 }
 
+fn scripted_cases(a: &Args, rng: &mut Rng) -> Vec<(Vec<u32>, Vec<u32>, Vec<DiffOp>)> {
+    let n = if a.thorough() { 30000 } else { 2500 };
+    let mut v: Vec<(Vec<u32>, Vec<u32>, Vec<DiffOp>)> = (0..n / 2)
+        .map(|_| {
+            let nb = rng.range(1, 6);
+            template_case(rng, nb)
+        })
+        .collect();
+    v.extend((0..n)
+        .map(|i| {
+            let nseg = if i % 3 == 0 { rng.range(6, 14) } else { rng.range(2, 8) };
+            let alpha = *rng.pick(&[2u32, 3, 5]);
+            scripted_case(rng, nseg, alpha)
+        }));
+    v
+}
+
 pub fn drive_c10(a: &Args, out: &mut Out) {
     let mut rng = Rng::new(a.num("seed", 1));
     let per = if a.thorough() { 6 } else { 3 };
+    for (x, y, script) in scripted_cases(a, &mut rng) {
+        for st in ASTACKS {
+            run_adapter(&x, &y, &script, st, out);
+        }
+    }
     for (x, y) in script_pairs(a, &mut rng) {
         for _ in 0..per {
             let script = random_script(&mut rng, &x, &y);
@@ -166,6 +354,10 @@ pub fn drive_c10(a: &Args, out: &mut Out) {
 pub fn drive_c10ops(a: &Args, out: &mut Out) {
     let mut rng = Rng::new(a.num("seed", 1));
     let per = if a.thorough() { 6 } else { 3 };
+    for (x, y, script) in scripted_cases(a, &mut rng) {
+        let case = out.next_case();
+        out.emit(&ops_record(&x, &y, &script, case));
+    }
     for (x, y) in script_pairs(a, &mut rng) {
         for _ in 0..per {
             let script = random_script(&mut rng, &x, &y);
